@@ -28,8 +28,9 @@ Areas == << [start |-> 1048576, len |-> 4096, prot |-> 5],     \* CODE  0x100000
 Pat(a) == (a * 7 + (a \div 256) * 13 + 5) % 256
 HasP(p, b) == (p \div b) % 2 = 1
 
-\* an 8-byte address as an integer of the guest layout's range, or -1 (certainly unmapped)
-ToInt(ea) == IF ea[5] = 0 /\ ea[6] = 0 /\ ea[7] = 0 /\ ea[8] = 0 /\ ea[4] < 128
+\* an 8-byte address as an integer of the guest layout's range, or -1 (certainly unmapped).  Only addresses below 2^30 are
+\* represented (the guest layout ends at 0x601000), so that address + access size never leaves TLC's 32-bit integers.
+ToInt(ea) == IF ea[5] = 0 /\ ea[6] = 0 /\ ea[7] = 0 /\ ea[8] = 0 /\ ea[4] < 64
              THEN ea[1] + 256 * ea[2] + 65536 * ea[3] + 16777216 * ea[4] ELSE 0 - 1
 OfInt(n) == [i \in 1..8 |-> IF i > 4 THEN 0 ELSE (n \div (256 ^ (i - 1))) % 256]
 Accessible(ea, n, need) ==
